@@ -45,6 +45,74 @@ CLAIMS = {
          "Decides: cursor written only after the exhausted events loop; a fresh cursor is never made durable while the owed walk is only in "
          "memory; cursor-error fallback wired to a walk; walk marker only after a complete walk; load loop rebuilds both indexes and the "
          "pending set from the `changed` flag under _loading; labels separate accounts and roots. 'As if it had never stopped' is not decided.", "4 C06"),
+ "C10": ("exception-taxonomy table + handler CFG queries",
+         "Decides the classification and handler mechanism: notify_from_exception agrees with the exception hierarchy and no arm is shadowed; the "
+         "sync step catches everything, reports, punts and backs off on every path; the intake step catches every transient class, reports "
+         "unconditionally, backs off, re-authenticates; the service loop swallows the rest; invalid names make the entry irrelevant; the give-up "
+         "error becomes FINISHED; a retry never reuses a download keyed to older content. Convergence after the faults stop is not decided.", "4 C10"),
+ "C12": ("side-typing (units-of-measure over LOCAL/REMOTE) + guard facts + CFG cut queries",
+         "Decides: every path/id/hash given to a provider call, translate, a look-up, update_entry or an entry half belongs to that side, with "
+         "synced = other(changed) discharged at every call site; the default translate uses the source side's algebra and falls through to None; "
+         "translate results are None-tested before mutating calls; a path that does not translate is discarded or, only if synced before and moved "
+         "out of the root, its peer deleted; is_subpath cuts on a component boundary; roots are immutable; revival needs a translating path. "
+         "Provider-side filtering and the move-out/peer-edit race are not decided.", "4 C12"),
+ "C16": ("sibling agreement of provider implementations + lock-set with _api() + constant relations",
+         "Decides for MockProvider and FileSystemProvider: interface coverage, which operation can raise which documented error class, the errno "
+         "map, every raising OS call of an API method under `with self._api()`, hash_data built from the same digest producers and finality switch "
+         "as the info hash (and the prefix+suffix digest final only when it covered the file), an event after every mock mutation, identity check "
+         "on connect, ids changing only for path-style providers, read-only queries, child selection by the path algebra. Equivalence with a "
+         "reference tree is not decided.", "4 C16"),
+ "C17": ("boolean DNF over linear-inequality normal forms + sort-key and guard checks",
+         "Decides the laws that are comparisons and a sort key: the returned entry is the loop variable of an ascending sort of the pending set "
+         "under the predicate (changed_s and changed_s <= now - age) or priority < 0, decided as a DNF of linear normal forms; key = (priority, "
+         "time); the manager passes its ageing value and syncs the returned entry; punt = +1 and a bounded deferral; strictly increasing change "
+         "stamps; related entries reset on finish; priority follows the path; every failing step punts. Whole-run timing and starvation freedom "
+         "are not decided.", "4 C17"),
+ "C19": ("ownership + CFG ordering of maintenance pairs + read-only effect analysis",
+         "Decides who may mutate the id map, child maps and parent links, and the maintenance pairs of the mutating primitives (_delete pops every "
+         "id of the detached subtree and clears the parent; __insert_node evicts path and id owners before linking and registers the subtree after; "
+         "_set_oid evicts before storing and pairs the store with the map update; type change deletes before re-making; rename = detach, evict, "
+         "insert); getters are read-only. Agreement with a dictionary model over all sequences is not decided.", "4 C19"),
+ "C20": ("boolean structure of the gate + guard facts + CFG cut queries + lock-set on the entry points",
+         "Decides: the pre-sync gate equals super or not (local file exists or requested or remote directory); both step frames skip sync() when it "
+         "is truthy; the inclusion/exclusion arms of the on-demand pending filter; un-request pushes local edits first, deletes on LOCAL only, "
+         "then clears the local half and moves the entry to the exclude set on every path; is_synced iff local info; a request updates both sets "
+         "and syncs parents first; the entry points hold the state lock. The two safety properties over all sequences are not decided.", "4 C20"),
+ "C02": ("inventory of destructive calls + guard facts + CFG cut queries",
+         "Decides the guards on destruction: the engine's destructive provider calls are exactly five sites, each under its guard (peer delete "
+         "needs a peer id; delete-out-of-the-way only for a copy needing no sync; resolver upload only over the loser when not kept; un-request "
+         "delete local only); no upload over a trashed/missing/id-less peer; deletes are dropped when the other side has a pending create/rename; "
+         "the loser is kept by rename-only to '.conflicted'; corrupt content freezes its side and is never embraced. Which versions survive a "
+         "given history is not decided.", "4 C02"),
+ "C03": ("CFG must-pass-through queries on book-keeping stores + side-typing",
+         "Decides the anti-echo book-keeping: after each of the engine's own writes (upload, create, mkdir, rename) both sides' last-synced markers "
+         "and the provider-returned id are recorded on every success path without marking the entry changed; mutating calls of the embrace "
+         "subtree go to the side opposite the change; a changed-but-in-sync side is cleared, not embraced. Tree equality at quiescence is not "
+         "decided.", "4 C03"),
+ "C04": ("call inventory + effect summaries + CFG must-pass-through queries",
+         "Decides: no recursive provider delete in the engine; a not-empty folder delete is deferred to a handler that issues no provider "
+         "mutation; after the peer delete the side is tombstoned and the entry ignored on every path; a tombstoned id with no information is "
+         "confirmed TRASHED; a folder path change re-paths every child; renames go by stored id and the returned id is recorded; delete+create "
+         "folding only for path-id providers with all three take-over stores. That the merged tree equals base + both deltas is not decided.", "4 C04"),
+ "C05": ("call-site inventory + handler structure + guard facts + side-typing",
+         "Decides: one resolver call site outside loops; temporary errors propagate, others and malformed answers fall back to remote-wins/keep; "
+         "identical content returns before the resolver and is compared within one side's hash space; conflict handling only on hash_conflict(); "
+         "handles use their own side's provider and a temp file keyed to current content; not keep = upload over the loser, keep = rename. Final "
+         "contents are not decided.", "4 C05"),
+ "C14": ("MUSTCALL summaries / CFG cut queries on the refresh-before-act discipline",
+         "Decides: sync() is reachable in a step only after get_latest(); change stamps strictly increase; id-less events never touch the state; "
+         "the no-information arm stores only TRASHED/MISSING, confirms a tombstone for every provider style and never leads to EXISTS; the "
+         "freshness marker has four writers; unchanged walk events are the only dedupe. Equality of outcomes under duplication / reordering is "
+         "not decided.", "4 C14"),
+ "C01": ("response-protocol exhaustiveness + CFG queries",
+         "Convergence itself is behavioural and not decided. Decided are book-keeping conditions without which the engine cannot go quiet or make "
+         "progress: FINISHED/PUNT are dispatched; every protocol function returns FINISHED/PUNT/REQUEUE on every path; finishing clears flag and "
+         "pending set; every event source feeds _process_event whose only drops are the three enumerated ones; REQUEUE is preceded by a priority "
+         "change.", "4 C01"),
+ "C13": ("guard facts on is_subpath + kernel form of paths_match + side-typing of translate",
+         "The value-level path laws (for all strings) are not decided. Decided are the structural slips the property names: component-boundary "
+         "test and symmetric case fold in is_subpath, relative part cut from the un-folded target, paths_match as the kernel of one normalisation, "
+         "replace_path built from is_subpath and raising otherwise, default translate using the source side's algebra for membership.", "4 C13"),
 }
 
 def main():
